@@ -1243,6 +1243,33 @@ def regex_sites(model):
             for sub in ast.walk(node):
                 if isinstance(sub, ast.Call) and (dotted(sub.func) or "").startswith("re."):
                     seen_nodes.add(id(sub))
+    # class bodies: a pattern bound to a class attribute is applied by whoever reads the attribute - a base class of the
+    # standard library included (ConfigParser matches every line of a file against OPTCRE / SECTCRE of its subclass)
+    for m in model.modules.values():
+        for c in m.classes.values():
+            for item in c.node.body:
+                if isinstance(item, (ast.FunctionDef, ast.ClassDef)):
+                    continue
+                for sub in ast.walk(item):
+                    if isinstance(sub, ast.Call) and (dotted(sub.func) or "").startswith("re.") and (dotted(sub.func) or "")[3:] in RE_FUNCS:
+                        seen_nodes.add(id(sub))
+                        if not sub.args:
+                            raise AnalysisError("regex call without pattern at %s" % m.site(sub))
+                        tname = None
+                        if isinstance(item, ast.Assign) and len(item.targets) == 1 and isinstance(item.targets[0], ast.Name):
+                            tname = item.targets[0].id
+                        try:
+                            pat = model.fold(sub, m) if dotted(sub.func) == "re.compile" else model.fold(sub.args[0], m)
+                        except NotConst:
+                            site = RegexSite(ast.unparse(sub.args[0]), c.qname, sub.lineno, "class attribute", name=tname, module=m.name)
+                            site.dynamic = "unescaped"
+                            out.append(site)
+                            continue
+                        if isinstance(pat, RegexConst):
+                            pat = pat.pattern
+                        if not isinstance(pat, str):
+                            raise AnalysisError("regex pattern at %s is not a string" % m.site(sub))
+                        out.append(RegexSite(pat, c.qname, sub.lineno, "class attribute", name=tname, module=m.name))
     # inside functions
     for f in model.all_functions():
         for node in ast.walk(f.node):
